@@ -58,7 +58,7 @@ example : evalBin .div ⟨.int 7, false⟩ ⟨.int 0, false⟩ = .error "integer
 theorem ljust_capped (i p r : V) (h : applyFilter b!"ljust" i p = .ok r) :
     ∃ n : Nat, (n : Int) ≤ maxCharPadding ∧ r.v = .str (i.v.toS ++ Bytes.spaces n) := by
   simp [applyFilter, mkStr] at h
-  by_cases hc : maxCharPadding < (if p.v.toInt.toInt - ↑i.v.len < 0 then 0 else p.v.toInt.toInt - ↑i.v.len)
+  by_cases hc : maxCharPadding < (if p.v.toInt.toInt - ↑(Utf8.runes i.v.toS).length < 0 then 0 else p.v.toInt.toInt - ↑(Utf8.runes i.v.toS).length)
   · rw [if_pos hc] at h; cases h
   · rw [if_neg hc] at h
     simp only [FRes.ok.injEq] at h
